@@ -178,3 +178,33 @@ fn kx_bytes_copy_to_bytes_is_split_to() {
     // zero-copy
     if n > 0 { assert!(r.as_ptr() as usize == DATA.as_ptr() as usize + off); }
 }
+
+// @ob props=C16,C09,C11,C12 tier=quick kind=Kinf fns=Chain::remaining,Chain::remaining_mut,Take::remaining,Limit::remaining_mut
+#[kani::proof]
+fn kx_chain_remaining_saturates_for_every_usize() {
+    // Implementors may report any `usize` (an endless generator reports usize::MAX; Vec<u8> reports
+    // isize::MAX - len as remaining_mut).  The adapters' arithmetic must be total on all of it:
+    // no overflow check may fire (debug would panic where release wraps - C16), the sum saturates.
+    struct Huge(usize);
+    static ONE: [u8; 1] = [0];
+    impl Buf for Huge {
+        fn remaining(&self) -> usize { self.0 }
+        fn chunk(&self) -> &[u8] { if self.0 == 0 { &[] } else { &ONE } }
+        fn advance(&mut self, cnt: usize) { assert!(cnt <= self.0); self.0 -= cnt; }
+    }
+    unsafe impl crate::BufMut for Huge {
+        fn remaining_mut(&self) -> usize { self.0 }
+        unsafe fn advance_mut(&mut self, cnt: usize) { self.0 -= cnt; }
+        fn chunk_mut(&mut self) -> &mut crate::buf::UninitSlice { crate::buf::UninitSlice::new(&mut []) }
+    }
+    let (a, b, n): (usize, usize, usize) = (kani::any(), kani::any(), kani::any());
+    let c = Buf::chain(Huge(a), Huge(b));
+    assert!(Buf::remaining(&c) == a.saturating_add(b));
+    let t = Buf::take(c, n);
+    assert!(Buf::remaining(&t) == core::cmp::min(n, a.saturating_add(b)));
+    let cm = crate::BufMut::chain_mut(Huge(a), Huge(b));
+    assert!(crate::BufMut::remaining_mut(&cm) == a.saturating_add(b));
+    let lm = crate::BufMut::limit(cm, n);
+    assert!(crate::BufMut::remaining_mut(&lm) == core::cmp::min(n, a.saturating_add(b)));
+    kani::cover!(a.checked_add(b).is_none(), "sum exceeds usize");
+}
